@@ -840,6 +840,12 @@ func runSvc(c SvcCase) (vkit.Info, error) {
 		refusable := (ttl <= 0 && id == gcWorker) || (ttl > 0 && sp >= mn && (id == "" || (id == gcWorker && !infinite)))
 		var bracket map[string][2]int64
 		recorded := false
+		// what is stored if the request is refused as a whole after the pruning (ids that path cleaning alters):
+		// neither the removal nor the registration happened
+		refusedState := copyState(want)
+		if e, ok := pre[id]; ok && ttl <= 0 && id != gcWorker && e.Exp >= nb.Unix() {
+			refusedState[id] = e
+		}
 		if ttl > 0 && sp >= mn && !refusable {
 			if infinite {
 				want[id] = entry{SP: sp, Exp: math.MaxInt64}
@@ -856,7 +862,11 @@ func runSvc(c SvcCase) (vkit.Info, error) {
 			}
 			// refused: nothing but the pruning of expired entries / the gc_worker repair may have happened
 			if d := diffState(pre, post, nil); d != "" {
-				if d2 := diffState(want, post, bracket); d2 != "" {
+				cmp, br := want, bracket
+				if hostile {
+					cmp, br = refusedState, nil
+				}
+				if d2 := diffState(cmp, post, br); d2 != "" {
 					return info, vkit.Errf("a refused request changed the stored entries (%s): %s", d2, desc())
 				}
 			}
